@@ -46,13 +46,13 @@ cpdef int date_to_idx_fast(
         Scoreboard index
     """
     cdef double diff_seconds
-    cdef int idx
+    cdef long long idx  # an instant centuries away must not wrap around before it is clamped
 
     # Calculate difference in seconds
     diff_seconds = _total_seconds(date - start_date)
 
     # Floor division for the index: an instant shortly before the start lies in slot -1, not 0
-    idx = <int>floor(diff_seconds / <double>resolution)
+    idx = <long long>floor(diff_seconds / <double>resolution)
 
     if force_into_project:
         if idx < 0:
